@@ -73,8 +73,34 @@ def gen_item(rng, uid):
     return [kind, [prio] if prio else None, ident, words]
 
 
+def gen_comment(rng, uid):
+    """an in-block comment line: ["#", words] - its tags / links / properties / dates belong to no note"""
+    return ["#", gen_words(rng, uid, 1, 4)]
+
+
 def gen_blocks(rng, uid, lo=0, hi=2):
-    return [[gen_item(rng, uid) for _ in range(rng.randint(1, 3))] for _ in range(rng.randint(lo, hi))]
+    bs = []
+    for _ in range(rng.randint(lo, hi)):
+        b = []
+        for _ in range(rng.randint(1, 3)):
+            if rng.random() < 0.2:
+                b.append(gen_comment(rng, uid))
+            b.append(gen_item(rng, uid))
+        if rng.random() < 0.15:
+            b.append(gen_comment(rng, uid))
+        bs.append(b)
+    # a block that repeats an earlier block of the same section word for word (items without a ZID of their own)
+    if bs and rng.random() < 0.2:
+        src = rng.choice(bs)
+        dup = [e for e in src if e[0] != "#" and e[2][0] in ("plain", "long", "mod")]
+        if dup:
+            import copy
+            bs.append(copy.deepcopy(dup if rng.random() < 0.7 else dup[:1]))
+    return bs
+
+
+def is_comment(e):
+    return e[0] == "#" and len(e) == 2
 
 
 def gen_sec(rng, uid, lvl):
@@ -117,10 +143,14 @@ def render_item(it):
     return kind + (" " + prio[0] if prio else "") + "".join(" " + word_text(w) for w in ws)
 
 
+def render_elem(e):
+    return "#" + "".join(" " + word_text(w) for w in e[1]) if is_comment(e) else render_item(e)
+
+
 def render_blocks(bs):
     out = []
     for b in bs:
-        out += [render_item(it) for it in b] + [""]
+        out += [render_elem(e) for e in b] + [""]
     return out
 
 
